@@ -230,6 +230,14 @@ impl Gen {
             }
             lens.push(l);
         }
+        // now and then the batch ends (or starts) with an empty payload
+        if n > 0 && self.rng.chance(1, 25) {
+            if self.rng.chance(2, 3) {
+                lens.push(0);
+            } else {
+                lens.insert(0, 0);
+            }
+        }
         lens
     }
 
@@ -246,13 +254,16 @@ impl Gen {
         // number of additional whole blocks the entry should span
         let mut extra_blocks = *self.rng.pick(&[0i64, 0, 0, 1, 1, 2, 3, 5]);
         // one time in three aim at the end of the FILE (the last block of the file)
+        let mut exact_end = false;
         if self.rng.chance(1, 3) {
             let fsz = self.cfg.file_size.max(BLOCK);
             let in_file = cursor % fsz;
             let blocks_left_in_file = ((fsz - in_file + BLOCK - 1) / BLOCK) as i64; // incl. the current one
             extra_blocks = blocks_left_in_file - 1;
+            // one time in three: fill the file to its very last byte
+            exact_end = self.rng.chance(1, 3);
         }
-        let d = if forge { crate::ops::FORGED_ENTRY_LEN as i64 } else { self.rng.range(0, 18) as i64 - 9 }; // -9..=9 around the boundary
+        let d = if forge { crate::ops::FORGED_ENTRY_LEN as i64 } else if exact_end { 0 } else { self.rng.range(0, 18) as i64 - 9 }; // -9..=9 around the boundary
         // entry length such that (with one header per frame) the last frame ends d bytes
         // from the end of the target block
         let first_cap = if rem >= 7 { rem as i64 - 7 } else { BLOCK as i64 - 7 };
@@ -361,9 +372,15 @@ impl Gen {
         let n = g.recs.len();
         let pos = match self.rng.below(100) {
             0..=59 if n > 0 => {
-                // inside the retained range
-                let i = self.rng.below(n as u64) as usize;
-                self.st[&q].recs[i].0
+                // inside the retained range: the position of a retained record or, one time
+                // in four, any position between the first and the last one (which may fall
+                // into a gap left by an append at an explicit future position)
+                if self.rng.chance(1, 4) {
+                    self.rng.range(first.unwrap(), last.unwrap())
+                } else {
+                    let i = self.rng.below(n as u64) as usize;
+                    self.st[&q].recs[i].0
+                }
             }
             60..=74 if n > 0 => last.unwrap(),
             75..=79 if first.unwrap_or(0) > 0 => self.rng.below(first.unwrap()),
